@@ -24,7 +24,6 @@ import (
 	"net/http/httptest"
 	"sort"
 	"strings"
-	"time"
 
 	"github.com/nuetzliches/hookaido/internal/queue"
 	"github.com/nuetzliches/hookaido/internal/verifkit/runner"
@@ -85,41 +84,36 @@ type overlapObs struct {
 	A      respObs   `json:"outer"`
 	Nested []respObs `json:"nested"`
 	Stored []string  `json:"stored_routes"` // routes of everything in the store afterwards, sorted
-	Hung   bool      `json:"nested_request_blocked,omitempty"`
 }
 
-// serveOverlap serves rawA with rawB nested at every first writer call and empties the store.
-func serveOverlap(b *booted, rawA, rawB string) (overlapObs, error) {
+// serveOverlap serves rawA with rawB nested at every first writer call and empties the store. The nested
+// request runs on the calling goroutine, inside the writer call (a handler that holds a lock across a writer
+// call would block here for ever; runMethodFamily has a watchdog for that).
+func serveOverlap(b *booted, rawA, rawB string, rd *[2]*bufio.Reader) (overlapObs, error) {
 	var o overlapObs
-	reqA, err := http.ReadRequest(bufio.NewReader(strings.NewReader(rawA)))
+	for i := range rd {
+		if rd[i] == nil {
+			rd[i] = bufio.NewReaderSize(nil, 512)
+		}
+	}
+	rd[0].Reset(strings.NewReader(rawA))
+	reqA, err := http.ReadRequest(rd[0])
 	if err != nil {
 		return o, fmt.Errorf("ReadRequest: %v", err)
 	}
 	reqA.RemoteAddr = "10.1.2.3:1"
 	w := &nestingWriter{rec: httptest.NewRecorder()}
 	w.inject = func(p int) {
-		if o.Hung {
+		rd[1].Reset(strings.NewReader(rawB))
+		reqB, err := http.ReadRequest(rd[1])
+		if err != nil {
+			o.Nested = append(o.Nested, respObs{Point: pointNames[p], Status: -1})
 			return
 		}
-		done := make(chan respObs, 1)
-		go func() {
-			reqB, err := http.ReadRequest(bufio.NewReader(strings.NewReader(rawB)))
-			if err != nil {
-				done <- respObs{Status: -1}
-				return
-			}
-			reqB.RemoteAddr = "10.1.2.3:2"
-			rec := httptest.NewRecorder()
-			b.a.Ingress.ServeHTTP(rec, reqB)
-			done <- respObs{Status: rec.Code, Allow: allowOf(rec)}
-		}()
-		select {
-		case r := <-done:
-			r.Point = pointNames[p]
-			o.Nested = append(o.Nested, r)
-		case <-time.After(2 * time.Minute): // not an oracle: only keeps a handler that holds a lock across a writer call from hanging the run
-			o.Hung = true
-		}
+		reqB.RemoteAddr = "10.1.2.3:2"
+		rec := httptest.NewRecorder()
+		b.a.Ingress.ServeHTTP(rec, reqB)
+		o.Nested = append(o.Nested, respObs{Point: pointNames[p], Status: rec.Code, Allow: allowOf(rec)})
 	}
 	b.a.Ingress.ServeHTTP(w, reqA)
 	o.A = respObs{Status: w.rec.Code, Allow: allowOf(w.rec)}
@@ -161,10 +155,10 @@ func overlapVerdict(eA, eB expectation, o overlapObs) string {
 		}
 		return "allow-differs"
 	}
-	if len(o.Nested) == 0 {
-		return "no-writer-call"
+	at := "none"
+	if len(o.Nested) > 0 {
+		at = o.Nested[0].Point
 	}
-	at := o.Nested[0].Point
 	if !same(eA, o.A) {
 		return "outer:first-nested-at-" + at + ":" + kind(eA, o.A)
 	}
@@ -214,7 +208,7 @@ func overlapRunOne(c mfCfg, ia, ib int, ip interp, slot int) (string, expectatio
 	defer b.a.Shutdown()
 	reqs := mfRequests(c)
 	routes := mfRoutes(c)
-	o, err := serveOverlap(b, reqs[ia].raw(), reqs[ib].raw())
+	o, err := serveOverlap(b, reqs[ia].raw(), reqs[ib].raw(), new([2]*bufio.Reader))
 	if err != nil {
 		return "", expectation{}, expectation{}, o, err
 	}
@@ -224,9 +218,10 @@ func overlapRunOne(c mfCfg, ia, ib int, ip interp, slot int) (string, expectatio
 
 type overlapStats struct {
 	pairs, nested int64
+	byStatus      map[int]int64
 	byPoint       [nPoint]int64
 	finds         map[string]overlapFinding
-	hung          bool
+	rd            [2]*bufio.Reader
 }
 
 // overlapConfig runs every ordered pair of the configuration's request alphabet on the booted configuration.
@@ -234,16 +229,14 @@ func overlapConfig(b *booted, c mfCfg, ci int, dsl string, reqs []mfReq, raws []
 	n := len(reqs)
 	for ia := 0; ia < n; ia++ {
 		for ib := 0; ib < n; ib++ {
-			o, err := serveOverlap(b, raws[ia], raws[ib])
+			o, err := serveOverlap(b, raws[ia], raws[ib], &st.rd)
 			if err != nil {
 				return fmt.Errorf("overlap %s / %s: %v", reqs[ia], reqs[ib], err)
 			}
-			if o.Hung {
-				st.hung = true
-				return fmt.Errorf("overlap %s / %s: the nested request did not finish: the handler blocks other requests while it is inside a ResponseWriter call", reqs[ia], reqs[ib])
-			}
 			st.pairs++
 			st.nested += int64(len(o.Nested))
+			st.byStatus[exps[ia].Status]++
+			st.byStatus[exps[ib].Status] += int64(len(o.Nested))
 			for _, nb := range o.Nested {
 				for p := range pointNames {
 					if pointNames[p] == nb.Point {
